@@ -61,6 +61,7 @@ type task struct {
 	phase    string
 	selects  int
 	snooze   int64 // not schedulable before this decision number (unless nothing else is)
+	exiting  bool // the simulated os.Exit is unwinding this task
 	inOp     bool // between Pre and Post of an instrumented operation (operand evaluation may yield in between)
 }
 
@@ -266,7 +267,16 @@ func install() {
 			e.tap(kind, a, b)
 		}
 	}
-	verifrt.ExitFn = func(code int) { panic(exitSentinel{code}) }
+	verifrt.ExitFn = func(code int) {
+		if e := cur; e != nil && e.running != nil {
+			e.running.exiting = true // deferred calls of package main are skipped from here on, as under a real os.Exit
+		}
+		panic(exitSentinel{code})
+	}
+	verifrt.ExitingHook = func() bool {
+		e := cur
+		return e != nil && e.running != nil && e.running.exiting
+	}
 }
 
 func (e *Engine) newTask(name string, lib bool) *task {
@@ -717,6 +727,7 @@ func runOnce(t *testing.T, w *world.World, keepLog bool, scale int64) *Result {
 		e.restarts[r] = true
 	}
 	e.files = map[string]world.SimFile{}
+	resetGlobals() // package-level variables of the code under test start every world from their initial values
 	setKnobs(w.Knobs)
 	defer setKnobs(nil)
 	for k := range w.Knobs {
@@ -725,6 +736,7 @@ func runOnce(t *testing.T, w *world.World, keepLog bool, scale int64) *Result {
 	install()
 	verifrt.StdoutW = &e.stdout
 	verifrt.StderrW = &e.stderr
+	verifrt.ResetSync()
 	cur = e
 	defer func() { cur = nil }()
 	func() {
@@ -841,6 +853,9 @@ func (e *Engine) bubble() {
 				e.res.Faults[k] += n
 			}
 		}
+	}
+	for k, n := range verifrt.SyncWaits {
+		e.res.Faults["sync-"+k] += n
 	}
 	// deterministic summary into the log hash
 	for i, o := range e.outs {
